@@ -4,5 +4,5 @@
 import sys
 sys.path[:0] = ["/repo/pulser-core", "/repo/pulser-simulation", "/verif"]
 from symx.replay import replay
-sys.exit(replay(check='checks.c02', kernel='two', shape={'own': {'clock': 4, 'local': False, 'slots': [], 'mod': True, 'pj': 'derived', 'targets_a': ['q0'], 'targets_b': ['q1']}, 'other': {'clock': 1, 'local': False, 'slots': ['pulseA'], 'mod': True, 'pj': 'derived', 'targets_a': ['q0'], 'targets_b': ['q2']}, 'op': ['add_pulse', 'no-delay', 'A'], 'maxseq': False, 'nbarriers': 1},
-                assignment={'own.min_duration': 98, 'own.tr': 1, 'other.min_duration': 1, 'other.tr': 1, 'other.s0.dur': 1, 'new.dur/k': 25, 'barrier0': 99, 'buf#1.start': 0, 'buf#1.end': 0, 'buf#2.start': 0, 'buf#2.end': 0, 'buf#5.start': 0, 'buf#5.end': 0, 'buf#6.start': 0, 'buf#6.end': 0}, label='c02:inv_contiguous'))
+sys.exit(replay(check='checks.c02', kernel='two', shape={'own': {'clock': 4, 'local': False, 'slots': [], 'mod': True, 'pj': 'derived', 'targets_a': ['q0'], 'targets_b': ['q1']}, 'other': {'clock': 1, 'local': False, 'slots': ['pulseA'], 'mod': True, 'pj': 'derived', 'targets_a': ['q0'], 'targets_b': ['q2']}, 'op': ['add_pulse', 'min-delay', 'A'], 'maxseq': False, 'nbarriers': 1},
+                assignment={'own.min_duration': 57, 'own.tr': 1, 'other.min_duration': 1, 'other.tr': 1, 'other.s0.dur': 1, 'new.dur/k': 15, 'barrier0': 2, 'buf#1.start': 0, 'buf#1.end': 0, 'buf#2.start': 0, 'buf#2.end': 0, 'buf#3.start': 0, 'buf#3.end': 0, 'buf#4.start': 0, 'buf#4.end': 0}, label='c02:inv_contiguous'))
